@@ -7,10 +7,12 @@ replay files, prints the protocol lines and returns the exit code:
   1  at least one violation not listed in known_findings.json (VIOLATION lines)
   2  analysis broken (anchor vanished, rule matched too few instances, driver does not compile ...)
 """
+import atexit
 import hashlib
 import json
 import os
 import re
+import shutil
 import subprocess
 import sys
 import time
@@ -67,9 +69,32 @@ def tree_hash():
     return _tree_hash
 
 
+_workdirs = {}
+
+
+def _cleanup_workdirs(owner):
+    if os.getpid() != owner:          # forked pool workers must not remove the parent's directories
+        return
+    for d in _workdirs.values():
+        shutil.rmtree(d, ignore_errors=True)
+
+
 def workdir(name):
-    d = os.path.join(BUILD, "work", name)
+    """scratch directory private to this run (checks may run concurrently, also two tiers of one check): build/work/<name>.<pid>, removed at exit;
+    directories left behind by killed runs are removed when their process no longer exists"""
+    if name in _workdirs:
+        return _workdirs[name]
+    root = os.path.join(BUILD, "work")
+    os.makedirs(root, exist_ok=True)
+    if not _workdirs:
+        atexit.register(_cleanup_workdirs, os.getpid())
+        for e in os.listdir(root):
+            m = re.match(r"^.*\.(\d+)$", e)
+            if not m or not os.path.exists("/proc/%s" % m.group(1)):
+                shutil.rmtree(os.path.join(root, e), ignore_errors=True)
+    d = os.path.join(root, "%s.%d" % (name, os.getpid()))
     os.makedirs(d, exist_ok=True)
+    _workdirs[name] = d
     return d
 
 
@@ -166,7 +191,10 @@ class Report:
         seen_new = set()
         for stale in os.listdir(REPLAY):          # replay files of earlier runs of this property
             if stale.startswith(self.pid + "-"):
-                os.remove(os.path.join(REPLAY, stale))
+                try:
+                    os.remove(os.path.join(REPLAY, stale))
+                except FileNotFoundError:
+                    pass
         for o in new:
             if o["key"] in seen_new:
                 continue
@@ -211,8 +239,10 @@ class Report:
         ev = dict(property_id=self.pid, tier=self.tier, seed=seed_from_env(), level=level, coverage=cov,
                   assumptions=self.assumptions, wall_s=round(time.time() - self.t0, 2),
                   violations=len(new))
-        with open(os.path.join(EVIDENCE, self.pid + ".json"), "w") as fh:
+        tmp = os.path.join(EVIDENCE, ".%s.%d.tmp" % (self.pid, os.getpid()))      # concurrent tiers of one check: the file is replaced whole
+        with open(tmp, "w") as fh:
             json.dump(ev, fh, indent=1, default=str)
+        os.replace(tmp, os.path.join(EVIDENCE, self.pid + ".json"))
         for l in lines:
             print(l)
         print("%s tier=%s obligations=%d discharged=%d known=%d new=%d broken=%d wall=%.1fs exit=%d" % (
